@@ -515,6 +515,13 @@ func (p *plugin) synchronize(ctx context.Context, pods []*PodSandbox, containers
 				return nil, err
 			}
 
+			if podsPerMsg > len(podsToSend) {
+				podsPerMsg = len(podsToSend)
+			}
+			if ctrsPerMsg > len(ctrsToSend) {
+				ctrsPerMsg = len(ctrsToSend)
+			}
+
 			log.Debugf(ctx, "oversized message, retrying in smaller chunks")
 		}
 	}
@@ -552,8 +559,13 @@ func recalcObjsPerSyncMsg(pods, ctrs int, err error) (int, int, error) {
 		factor = 0.9
 	}
 
-	pods = int(float64(pods) * factor)
-	ctrs = int(float64(ctrs) * factor)
+	// scale down, but keep sending at least one object of a kind we were sending
+	if pods > 0 {
+		pods = max(1, int(float64(pods)*factor))
+	}
+	if ctrs > 0 {
+		ctrs = max(1, int(float64(ctrs)*factor))
+	}
 
 	if pods+ctrs < minObjsPerMsg {
 		pods = minObjsPerMsg / 2
